@@ -16,74 +16,74 @@ Print Assumptions c06_lost_broadcasts_on_this_tree.
 (* reported links per peer = live links with that remote: index used by the resolvers *)
 Theorem c06_index_is_live : forall U me h r q,
   In q (peer_links r (run U me h)) <-> In q (live U me h) /\ remote_of U q = r.
-Proof. intros U. exact (reported_is_live U lost_broadcasts). Qed.
+Proof. intros U. exact (reported_is_live U lost_broadcasts true). Qed.
 Print Assumptions c06_index_is_live.
 
 (* ... Controller.GetPeerLinks *)
 Theorem c06_get_peer_links_is_live : forall U me h r q,
   In q (get_peer_links U (run U me h) r) <-> In q (live U me h) /\ remote_of U q = r.
-Proof. intros U. exact (get_peer_links_is_live U lost_broadcasts). Qed.
+Proof. intros U. exact (get_peer_links_is_live U lost_broadcasts true). Qed.
 Print Assumptions c06_get_peer_links_is_live.
 
 (* ... and what an EstablishLinkWithPeer(src, dst) request yields after any history *)
 Theorem c06_yielded_is_live : forall U me h src dst q,
-  In q (yielded U lost_broadcasts me h src dst) <->
+  In q (yielded U lost_broadcasts true me h src dst) <->
   dst <> 0 /\ (src = 0 \/ src = me) /\ In q (live U me h) /\ remote_of U q = dst.
 Proof.
-  intros U. rewrite c06_lost_broadcasts_on_this_tree.
-  exact (yielded_is_live_when_lost_broadcasts U).
+  intros U me h src dst q. rewrite c06_lost_broadcasts_on_this_tree.
+  apply (yielded_is_live_when_lost_broadcasts U true). left; reflexivity.
 Qed.
 Print Assumptions c06_yielded_is_live.
 
 (* each link is reported once *)
 Theorem c06_reported_once : forall U me h r, NoDup (peer_links r (run U me h)).
-Proof. intros U. exact (reported_nodup U lost_broadcasts). Qed.
+Proof. intros U. exact (reported_nodup U lost_broadcasts true). Qed.
 Print Assumptions c06_reported_once.
 
 (* at most one live link per identifier *)
 Theorem c06_one_link_per_uuid : forall U me h q1 q2,
   In q1 (live U me h) -> In q2 (live U me h) -> uuid_of U q1 = uuid_of U q2 -> q1 = q2.
-Proof. intros U. exact (live_unique_uuid U lost_broadcasts). Qed.
+Proof. intros U. exact (live_unique_uuid U lost_broadcasts true). Qed.
 Print Assumptions c06_one_link_per_uuid.
 
 (* a lost link is never reported again (unless the transport reports it established again) *)
 Theorem c06_lost_never_reported : forall U me h h' q r,
   ~ In (Est q) h' -> ~ In q (peer_links r (run U me (h ++ Lost q :: h'))).
-Proof. intros U. exact (lost_never_reported U lost_broadcasts). Qed.
+Proof. intros U. exact (lost_never_reported U lost_broadcasts true). Qed.
 Print Assumptions c06_lost_never_reported.
 
 Theorem c06_lost_never_yielded : forall U me h h' q src dst,
-  ~ In (Est q) h' -> ~ In q (yielded U lost_broadcasts me (h ++ Lost q :: h') src dst).
+  ~ In (Est q) h' -> ~ In q (yielded U lost_broadcasts true me (h ++ Lost q :: h') src dst).
 Proof.
   intros U me h h' q src dst Hn H. apply c06_yielded_is_live in H as (_ & _ & H & Hr).
-  apply (lost_never_reported U lost_broadcasts me h h' q dst Hn).
-  apply (reported_is_live U lost_broadcasts). split; assumption.
+  apply (lost_never_reported U lost_broadcasts true me h h' q dst Hn).
+  apply (reported_is_live U lost_broadcasts true). split; assumption.
 Qed.
 Print Assumptions c06_lost_never_yielded.
 
 (* ... and has been closed *)
 Theorem c06_lost_is_closed : forall U me h h' q,
   In (Est q) h -> ~ In (Est q) h' -> In q (st_closed (run U me (h ++ Lost q :: h'))).
-Proof. intros U. exact (lost_is_closed U lost_broadcasts). Qed.
+Proof. intros U. exact (lost_is_closed U lost_broadcasts true). Qed.
 Print Assumptions c06_lost_is_closed.
 
 (* every link ever reported established is in the table or closed: nothing leaks *)
 Theorem c06_established_tracked : forall U me h q,
   In (Est q) h -> Tracked U (run U me h) q.
-Proof. intros U. exact (established_tracked U lost_broadcasts). Qed.
+Proof. intros U. exact (established_tracked U lost_broadcasts true). Qed.
 Print Assumptions c06_established_tracked.
 
 (* losing a link never removes another link, in particular ... *)
 Theorem c06_lost_keeps_others : forall U me h p q r,
   p <> q -> In q (peer_links r (run U me h)) -> In q (peer_links r (run U me (h ++ [Lost p]))).
-Proof. intros U. exact (lost_keeps_others U lost_broadcasts). Qed.
+Proof. intros U. exact (lost_keeps_others U lost_broadcasts true). Qed.
 Print Assumptions c06_lost_keeps_others.
 
 (* ... the newer link that replaced it under the same identifier *)
 Theorem c06_newer_survives : forall U me h q1 q2,
   q1 <> q2 -> remote_of U q2 <> me ->
   In q2 (peer_links (remote_of U q2) (run U me (h ++ [Est q1; Est q2; Lost q1]))).
-Proof. intros U. exact (newer_survives U lost_broadcasts). Qed.
+Proof. intros U. exact (newer_survives U lost_broadcasts true). Qed.
 Print Assumptions c06_newer_survives.
 
 (* a duplicate establish report is idempotent *)
@@ -98,13 +98,13 @@ Print Assumptions c06_duplicate_idempotent.
 Theorem c06_slow_path_dead : forall U me h p,
   do_lost U (run U me h) p =
   if option_eqb Nat.eqb (lget (run U me h) (uuid_of U p)) (Some p) then flush U (run U me h) p else run U me h.
-Proof. intros U me h p. apply do_lost_eq. exact (inv_run U lost_broadcasts me h). Qed.
+Proof. intros U me h p. apply do_lost_eq. exact (inv_run U lost_broadcasts true me h). Qed.
 Print Assumptions c06_slow_path_dead.
 
 (* sensitivity: in the model whose HandleLinkLost does not broadcast, a lost and
    closed link keeps being yielded (this was the behaviour before the fix) *)
 Theorem c06_without_broadcast_refuted :
-  In 0%nat (yielded stale_univ false 1 stale_history 1 2) /\
+  In 0%nat (yielded stale_univ false true 1 stale_history 1 2) /\
   live stale_univ 1 stale_history = [] /\
   get_peer_links stale_univ (run_gen stale_univ false (init 1) stale_history) 2 = [] /\
   In 0%nat (st_closed (run_gen stale_univ false (init 1) stale_history)).
@@ -142,7 +142,7 @@ Theorem c06_usurped_by_other_peer_refuted_when_only_current_told :
   evs = [Est 0%nat; Est 1%nat]
   /\ In 0%nat (q_closed (fold_left (fun t a => fst (qstep usurp_univ true t a)) usurp_history qinit))
   /\ get_peer_links usurp_univ (run_gen usurp_univ true (init 1) evs) 2 = [0%nat]
-  /\ yielded usurp_univ true 1 evs 1 2 = [0%nat].
+  /\ yielded usurp_univ true true 1 evs 1 2 = [0%nat].
 Proof. exact usurped_link_still_reported_when_only_current_told. Qed.
 Print Assumptions c06_usurped_by_other_peer_refuted_when_only_current_told.
 
@@ -167,6 +167,6 @@ Example c06_nonvacuous :
   live ex_univ 1 h = [1%nat]
   /\ peer_links 2 (run ex_univ 1 h) = [1%nat]
   /\ get_peer_links ex_univ (run ex_univ 1 h) 3 = []
-  /\ yielded ex_univ lost_broadcasts 1 h 0 2 = [1%nat]
+  /\ yielded ex_univ lost_broadcasts true 1 h 0 2 = [1%nat]
   /\ st_closed (run ex_univ 1 h) = [2%nat; 0%nat].
 Proof. vm_compute. repeat split. Qed.
